@@ -182,11 +182,38 @@ def k_req(ctx: Ctx, K: Kinds):
             rk = required_kind(K, fi)
             if rk:
                 req[fi.name] = (fi, rk)
+    # module-level helpers that quote a parameter only under a boolean flag (make_netloc(..., encode)): the requirement holds at the
+    # call sites that pass the flag as True
+    flagged = {}
+    for fi in model.all_funcs():
+        if fi.cls is None and fi.module == "_parse":
+            r0 = analyze(model, fi)
+            for e in r0.by_kind("call"):
+                q = K.quoter_of(e.func)
+                if q is None or not e.args or q[1][0] == "unquoter" or q[1][1]:
+                    continue
+                flags = [k[1] for k, fv in e.state.facts.items() if fv is True and k[0] == "param" and
+                         isinstance(getattr(fi.param_default(k[1]), "value", None), bool)]
+                for t in walk(e.args[0]):
+                    if t[0] == "param" and flags:
+                        flagged.setdefault(fi.name, (fi, {}))[1].setdefault(t[1], set()).update(flags)
     for fi in funcs(model):
         r = analyze(model, fi)
         sites = {}
         for e in r.by_kind("call"):
             f = e.func
+            if f[0] == "global" and f[2] in flagged:
+                target, need_ = flagged[f[2]]
+                params = list(target.params)
+                bound = dict(zip(params, e.args))
+                bound.update({kw: v for kw, v in e.kwargs if kw})
+                for p, flags in need_.items():
+                    if p not in bound or not any(bound.get(fl) == ("const", True) for fl in flags):
+                        continue
+                    kd = K.kind(bound[p], e.state.facts, fi, None, r)
+                    bad = sorted(x for x in kd if x.startswith("ENC") or x in (RAW, OPQ))
+                    sites.setdefault((id(e.node), p), [e.node, f"{f[2]}({p}={show(bound[p])[:60]}, {sorted(flags)[0]}=True)", DEC, []])[3].append((bad, sorted(kd)))
+                continue
             if not (f[0] == "attr" and f[1][0] == "param" and f[2] in req):
                 continue
             target, rk = req[f[2]]
